@@ -77,7 +77,7 @@ func run() error {
 		if err != nil {
 			return err
 		}
-		_, args, err := args.Get()
+		args, _, err := args.Get()
 		if err != nil {
 			return err
 		}
